@@ -524,6 +524,13 @@ func checkResetSpec(p *Prog, r *Result, pkg *packages.Package, spec resetSpec) {
 					return true
 				})
 			}
+			// Mechanical part 3: a function that gives the field its fresh value does not look at the old one first. The
+			// reason given for these fields is "the producer stores it before anyone reads it"; a read in the producer
+			// itself, on a path that has not passed the store, is a read of what the previous input left there.
+			if stale := readsBeforeOwnStore(p, pkg, fv); stale != "" {
+				r.Bad("R08a", key, fv.Pos(), "the field is not reset, on the ground that "+why+"; but "+stale+": on a parser that was used before, that is the value the previous input left")
+				continue
+			}
 			r.Check(plain > 0, "R08a", key, fv.Pos(), fmt.Sprintf("written before read (reasoned; %d assignments of a fresh value outside reset): %s", plain, why),
 				"the field is not reset and is never assigned a value that does not depend on its old one (only incremented, decremented or updated in place): what an earlier use — one that ended in an error, say — left in it is the starting value of the next use")
 			r.Except(key, "written-before-read: "+why)
@@ -809,6 +816,8 @@ func checkCounters(p *Prog, r *Result, pkg *packages.Package) {
 }
 
 var c08Controls = []Control{
+	{Name: "start-of-input-told-by-the-last-token-position", Rule: "R08a", WantKey: "Parser.pos", File: "syntax/lexer.go",
+		Mutate: ctlReplaceAnywhere("(p.spaced || p.tok == illegalTok || p.stopToken())", "(p.spaced || !p.pos.IsValid() || p.stopToken())")},
 	{Name: "body-reader-reads-without-a-body-pending", Rule: "R08h", WantKey: "letClause#call 1 of doHeredocs", File: "syntax/parser.go",
 		Mutate: ctlReplaceAnywhere("\thdocs := p.heredocs[p.buriedHdocs:]\n\tif len(hdocs) == 0 {\n\t\t// Nothing do do; don't even issue a read.\n\t\treturn\n\t}\n", "\thdocs := p.heredocs[p.buriedHdocs:]\n")},
 	{Name: "interactive-drops-last-line", Rule: "R08f", WantKey: "accumulated statements are yielded", File: "syntax/parser.go",
@@ -870,4 +879,91 @@ func stateFreeExpr(info *types.Info, e ast.Expr) bool {
 		return ok
 	})
 	return ok
+}
+
+// readsBeforeOwnStore: in a function of the lexer that assigns fv a value not derived from fv, a read of fv that can be reached from
+// the function's entry without passing such an assignment. "" when there is none.
+func readsBeforeOwnStore(p *Prog, pkg *packages.Package, fv *types.Var) string {
+	info := pkg.TypesInfo
+	for _, fd := range p.AllFuncDecls("syntax") {
+		if fd.Body == nil || fd.Name.Name == "reset" || !strings.HasSuffix(p.Fset.Position(fd.Pos()).Filename, "/lexer.go") {
+			continue // the producers are the lexer's functions; the parser's functions adjust what the lexer stored
+		}
+		isFresh := func(n ast.Node) bool {
+			as, ok := n.(*ast.AssignStmt)
+			if !ok || as.Tok != token.ASSIGN || len(as.Lhs) != len(as.Rhs) {
+				return false
+			}
+			for i, l := range as.Lhs {
+				if selectorField(info, l) != fv {
+					continue
+				}
+				self := false
+				ast.Inspect(as.Rhs[i], func(m ast.Node) bool {
+					if se, ok := m.(*ast.SelectorExpr); ok && selectorField(info, se) == fv {
+						self = true
+					}
+					return true
+				})
+				if !self {
+					return true
+				}
+			}
+			return false
+		}
+		has := false
+		inspectNoLit(fd.Body, func(n ast.Node) bool {
+			if isFresh(n) {
+				has = true
+			}
+			return true
+		})
+		if !has {
+			continue
+		}
+		g := NewFGraph(info, fd.Body, nil)
+		stale := ""
+		lhs := map[ast.Expr]bool{}
+		inspectNoLit(fd.Body, func(n ast.Node) bool {
+			if as, ok := n.(*ast.AssignStmt); ok {
+				for _, l := range as.Lhs {
+					lhs[ast.Unparen(l)] = true
+				}
+			}
+			return true
+		})
+		inspectNoLit(fd.Body, func(n ast.Node) bool {
+			se, ok := n.(*ast.SelectorExpr)
+			if !ok || selectorField(info, se) != fv || lhs[se] || stale != "" {
+				return true
+			}
+			blk := blockContaining(g, se)
+			if blk == nil {
+				return true
+			}
+			// the node holding the read, and whether every path to it passed a fresh store
+			idx := -1
+			for i, nd := range blk.Nodes {
+				if nd.Pos() <= se.Pos() && se.End() <= nd.End() {
+					idx = i
+				}
+			}
+			passed, _ := g.MustPass(g.Entry, -1, blk, isFresh, nil)
+			if !passed {
+				for i := 0; i < idx; i++ {
+					if isFresh(blk.Nodes[i]) {
+						passed = true
+					}
+				}
+			}
+			if !passed {
+				stale = fmt.Sprintf("%s reads it at %s on a path that has not stored it yet", funcKey("syntax", fd), p.Position(se.Pos()))
+			}
+			return true
+		})
+		if stale != "" {
+			return stale
+		}
+	}
+	return ""
 }
